@@ -152,7 +152,7 @@ def _ast_stores(fi: FuncInfo) -> Set[str]:
     return out
 
 
-@rule("C15.R4", "bundled plugins modify only what their documentation says (write sets of every overriding hook)", min_instances=14)
+@rule("C15.R4", "bundled plugins modify only what their documentation says (write sets of every overriding hook)", min_instances=15)
 def c15_r4(ctx):
     repo = ctx.repo
     for ms in ("contrib.no_reimports", "contrib.extract_operations", "contrib.shorter_results", "contrib.client_forward_refs"):
@@ -174,6 +174,12 @@ def c15_r4(ctx):
     st = [n for n in walk_no_nested(eo.node) if isinstance(n, ast.If) and norm(n.test) == "keyword.arg == 'query'"]
     good = good and len(st) == 1 and len(st[0].body) == 1 and norm(st[0].body[0]).startswith("keyword.value = generate_name(self._operations_variables[")
     ctx.check(good, key(eo, "rebinding"), "ExtractOperations must drop only the operation-string statement and rebind only the query keyword", eo.loc(), okmsg="ExtractOperations: body[1:], query=<OPERATION>_GQL")
+    gi = repo.func("contrib.extract_operations:ExtractOperationsPlugin.generate_init_module")
+    g_ = cfg_of(gi)
+    wr = [n for n in g_.stmts() if n.kind == "stmt" and n.ast is not None and calls_named(n.ast, "self._generate_operations_module")]
+    bad = g_.must_pass(g_.entry, [g_.exit], lambda x: any(x.id == y.id for y in wr)) if wr else ["x"]
+    ctx.check(bool(wr) and bad is None, key(gi, "operations module written"), "a path through generate_init_module skips writing the operations module (e.g. when an earlier plugin emptied __init__): client.py then imports a module that does not exist", gi.loc(),
+              okmsg="operations module written on every path")
     gs = repo.func("contrib.extract_operations:ExtractOperationsPlugin.generate_operation_str")
     rets = [n for n in gs.node.body if isinstance(n, ast.Return)]
     good = len(rets) == 1 and is_name(rets[0].value, "operation_str") and any(norm(s) == "self._operations_gqls[operation_name] = operation_str" for s in gs.node.body)
@@ -418,7 +424,7 @@ def c14_r3(ctx):
               okmsg="field objects are created per use (or mutators copy)")
 
 
-@rule("C14.R4", "variables of nested fields are collected at every depth; unique names; None arguments omitted", min_instances=7)
+@rule("C14.R4", "variables of nested fields are collected at every depth; unique names; None arguments omitted", min_instances=9)
 def c14_r4(ctx):
     repo = ctx.repo
     gf = repo.cls(BO + "GraphQLField")
@@ -449,6 +455,23 @@ def c14_r4(ctx):
     good = "self._collect_all_variables(idx, used_names)" in norm(ta.node) and "self._build_selections(idx, used_names)" in norm(ta.node) \
         and norm(bs.node).count(".to_ast(idx, used_names)") == 2
     ctx.check(good, key(ta, "shared used_names"), "the set of used variable names is not shared with every nested field", ta.loc(), okmsg="one used_names set for the whole field tree")
+    eff = lambda c: dotted(c.func) in ("self._collect_all_variables", "self._build_selections")
+    for given in (True, False):
+        def at(e, given=given):
+            t = norm(e)
+            if t == "used_names is None":
+                return not given
+            if t == "used_names":
+                return None  # an empty set handed down by the parent is falsy: unknown truthiness
+            if t in ("self._subfields or self._inline_fragments", "self._subfields", "self._inline_fragments"):
+                return True
+            return None
+        o = Interp(ta, at, is_effect=eff).run()
+        args = {norm(x.deref(c.args[1])) for x in o for c in x.effects if len(c.args) > 1}
+        want = {"used_names"} if given else {"set()"}
+        ctx.check(bool(o) and args == want, key(ta, f"used_names given={given}"),
+                  f"to_ast called {'with the parent' if given else 'without a'} used-names set passes {sorted(args)} on (expected {sorted(want)}): "
+                  "an empty set handed down by a parent without arguments must still be the one shared set", ta.loc(), okmsg=f"used_names given={given} -> {sorted(want)} shared downwards")
     cv = gf.methods["_collect_all_variables"]
     good = "unique_name = self._format_variable_name(idx, k, used_names)" in norm(cv.node) and "self.formatted_variables[unique_name] = {'name': k, 'type': v['type'], 'value': v['value']}" in norm(cv.node) \
         and norm(cv.node.body[0] if not isinstance(cv.node.body[0], ast.Expr) else cv.node.body[1]) == "self.formatted_variables = {}"
